@@ -18,6 +18,7 @@ use std::io::{BufRead, Write};
 use std::panic;
 
 fn exec(suite: u32, input: &[u64]) -> Vec<u64> {
+    common::journal(suite, input);
     let r = panic::catch_unwind(|| match suite {
         10 => suite01::exec10(input),
         20 | 30 => suite01::exec20(input),
